@@ -42,6 +42,8 @@ type Stats struct {
 	EnqAfterLoopExit  int
 	MultiErrEntries   int
 	TransitiveBlocked int
+	ShadowEvents      int
+	ExactStates       int
 }
 
 func (x *Exec) judge() (viols []Viol, st Stats) {
@@ -366,6 +368,13 @@ func (x *Exec) judge() (viols []Viol, st Stats) {
 			viols = append(viols, v)
 			break
 		}
+	}
+
+	// ---- shadow scheduler (C01 C03 C07 C08 C19 at the loop's own events) -------
+	if x.perturb.model != nil {
+		mv, ev, exact := x.perturb.model.result()
+		st.ShadowEvents, st.ExactStates = ev, exact
+		viols = append(viols, mv...)
 	}
 
 	// ---- C06: leaks ----------------------------------------------------------
